@@ -35,6 +35,7 @@ type Prog struct {
 	Fixtures  bool // fixture overlay active
 	LoadNotes []string
 	objFn     map[types.Object]*ssa.Function
+	instIdx   map[*ssa.Function][]*callgraph.Node
 }
 
 func goEnv() []string {
